@@ -1,14 +1,23 @@
 /-
-  Tie by translation (C19): the comparison of `needPrefetch` (`remainTtl < lifeSpan >> 2`), translated mechanically
-  from the current Go source, equals the model's.
+  Tie by translation (C19): the whole of `needPrefetch`, translated mechanically from the current Go source, equals
+  the model's. (The earlier comparison-only theorem on fragment `needPrefetch_cmp` of translate.json is subsumed and
+  gone: that fragment is located by the text `return remainTtl` and takes the local `lifeSpan` as a parameter, so
+  it broke on a renamed local.)
 -/
 import MosVerif.Generated.Translated
 import MosVerif.Model.Prefetch
 namespace MosVerif.Prefetch
 open MosVerif
 
-theorem needPrefetch_translated (stored expire now : Int) :
-    needPrefetch stored expire now = Translated.needPrefetch_cmp (expire - now) (expire - stored) := by
-  unfold needPrefetch Translated.needPrefetch_cmp
-  simp [Id.run]
-  rfl
+theorem id_pure_any {α : Type} (x : α) : (pure x : Id α) = x := rfl
+
+/-- ★ tie: the WHOLE of `needPrefetch` — `lifeSpan := expireTime.Sub(storedTime)`, `remainTtl := time.Until(expireTime)`,
+    the comparison with the arithmetic shift — translated with the translator's arithmetic reading of time.Time
+    (spec option `time`: instants are integer nanoseconds, ℤ arithmetic), IS the model's `needPrefetch`, for all
+    instants. (Go's Sub/Until saturate at ±2⁶³ ns ≈ 292 years; cache lifetimes are at most ten years, C08.) -/
+theorem c19_needPrefetch_translated (stored expire now : Int) :
+    needPrefetch stored expire now = Translated.c19_needPrefetch stored expire now := by
+  unfold needPrefetch Translated.c19_needPrefetch
+  simp only [Id.run, id_pure_any]
+
+end MosVerif.Prefetch
